@@ -82,6 +82,7 @@ import (
 	"context"
 	"errors"
 	"fmt"
+	"os"
 	"sort"
 	"strings"
 	"sync"
@@ -546,9 +547,9 @@ func (tr *stubTransport) Dial(ctx context.Context, raddr ma.Multiaddr, p peer.ID
 	// completion instant: whole millisecond + the address's own microsecond offset
 	target := (now+d+time.Millisecond-1)/time.Millisecond*time.Millisecond + time.Duration(a.idx)*time.Microsecond
 	tm := time.NewTimer(target - now)
-	select {
-	case <-tm.C:
-	case <-ctx.Done():
+	// simrt.Select: the swarm is instrumented, so this goroutine is a task of the scheduler and must only
+	// block at yield points
+	if simrt.Select("stub.dial", false, simrt.RecvCase(tm.C), simrt.RecvCase(ctx.Done())) == 1 {
 		tm.Stop()
 		w.mu.Lock()
 		w.outs = append(w.outs, outEv{t: simrt.Now(), a: a, cancelled: true, why: "cancelled"})
@@ -624,7 +625,7 @@ func (c *stubConn) OpenStream(context.Context) (network.MuxedStream, error) {
 	return nil, errors.New("stub: no streams")
 }
 func (c *stubConn) AcceptStream() (network.MuxedStream, error) {
-	<-c.closed
+	simrt.Recv("stub.accept", (<-chan struct{})(c.closed))
 	return nil, errStubClosed
 }
 func (c *stubConn) As(any) bool                        { return false }
@@ -647,13 +648,22 @@ var kindName = [2]string{"udp", "ipv6"}
 func run(t *testing.T, tape *simrt.Tape) *common.Outcome {
 	g := simrt.Gen{S: tape.G}
 	o := &common.Outcome{}
-	switch g.Weighted(10, 12, 1) {
+	// the system stratum was appended: first draws below 23 keep the stratum they had before it existed
+	stratum := g.Weighted(10, 12, 1, 5)
+	if only := os.Getenv("C20_ONLY"); only != "" && only != []string{"counter", "swarm", "exhaustive", "system"}[stratum] {
+		// sensitivity runs look at one stratum at a time (never set by ./check)
+		o.Sig = "skipped"
+		return o
+	}
+	switch stratum {
 	case 0:
 		runCounter(t, tape, g, o)
 	case 1:
 		runSwarm(t, tape, g, o)
-	default:
+	case 2:
 		runExhaustive(t, tape, g, o)
+	default:
+		runSystem(t, tape, g, o)
 	}
 	return o
 }
